@@ -962,6 +962,11 @@ def allocation_state_belongs_to_a_record(ctx, p):
         # (a closure counts as the function it is written in: `(0..n).map(|_| ..).collect()` instead of a loop)
         if hit and '{closure' in b.path and F.body(lib.strip_closures(b.path)) is not None:
             b = F.body(lib.strip_closures(b.path))
+        if hit:
+            # (a private helper that only one of the allocating functions reaches counts as that function)
+            own = lib.entry_point_of(F, b.path, {'table::ValueTable::next_free', 'table::ValueTable::claim_entries', 'table::ValueTable::clear_slot'} | STARTUP)
+            if own != b.path and F.body(own) is not None:
+                b = F.body(own)
         if not hit or b.path in seen:
             continue
         seen.add(b.path)
@@ -1712,7 +1717,8 @@ def log_handles_are_linear(ctx, p):
             ctx.ob(p + 'L log-handle-placed-on-success %s' % key, 'K1-must-pass', b.path,
                    'a log file handle taken out of a slot or queue of Log is put into another one (or its file is unlinked) on every success path of the function',
                    w_ok is None, '' if w_ok is None else 'success path that lets go of the handle: ' + lib.short_path(b, w_ok), b.loc(e))
-            why = LOG_HANDLE_DROPPED_ON_ERROR_OK.get((b.path, f))
+            # (a reviewed pair follows its code into a private helper that only the reviewed function reaches)
+            why = next((v for (kf, ks), v in sorted(LOG_HANDLE_DROPPED_ON_ERROR_OK.items()) if ks == f and lib.site_in(F, kf, b.path)), None)
             if w_err is not None and why:
                 ctx.ob(p + 'Le log-handle-placed-on-error %s' % key, 'K1-must-pass', b.path, 'reviewed exception: ' + why, True, '', b.loc(e))
             else:
@@ -1966,7 +1972,7 @@ def free_list_mirror_in_step(ctx, p):
         if not b:
             continue
         # (the stores may sit in a closure of the function: analysed in the body they are in)
-        for cand in lib.bodies_of(F, fn):
+        for cand in lib.family(F, fn):
             if any(bi in cand.normal_blocks() and call_matches(t, lib.ATOMIC_STORE) and '.ValueTable.last_removed' in lib.receiver_fields(cand, t, 0) for bi, t in cand.calls()):
                 b = cand
                 break
@@ -2433,6 +2439,15 @@ def walk_frees_children_of_the_root_found(ctx, p):
             ok, det = prov(fb, op_place(cands[0]))
         ctx.ob(p + ' walk-starts-from-the-root-found %s' % fb.path, 'K4-provenance', fb.path,
                'the children handed to the removal walk are unpacked from the root value that this planning step read (and removes)', ok, det, fb.loc(s))
+
+
+def column_file_mover(F):
+    """def-path of the function of the migration module that copies or renames the files of one column (`deplace_column` on the tree
+    the rules were written against): found by what it does - the one function of `migration` that calls both std::fs::copy and
+    std::fs::rename - so that a rename or a change of its mode parameter does not lose it."""
+    c = [b.path for b in F.bodies.values() if b.path.startswith('migration::') and '{closure' not in b.path
+         and b.call_sites('std::fs::copy') and b.call_sites('std::fs::rename')]
+    return c[0] if len(c) == 1 else 'migration::deplace_column'
 
 
 def borrow(ctx, modname, key_start, new_key):
